@@ -355,6 +355,116 @@ def validity_vs_conversion(prog: Program, run: Run, R: str) -> int:
     return n
 
 
+def _names_expanded(fn: ast.AST, e: ast.AST, depth: int = 0,
+                    seen: Optional[Set[str]] = None) -> Set[str]:
+    """Local names that ``e`` depends on, through assignments, loop targets and comprehensions."""
+    seen = set(seen or ())
+    out: Set[str] = set()
+    for n in ast.walk(e):
+        if isinstance(n, ast.Name) and n.id not in seen and depth < 6:
+            out.add(n.id)
+            seen.add(n.id)
+            for x in walk_no_nested(fn):
+                v = None
+                if isinstance(x, ast.Assign) and any(isinstance(t, ast.Name) and t.id == n.id
+                                                     for t in x.targets):
+                    v = x.value
+                if isinstance(x, ast.AnnAssign) and isinstance(x.target, ast.Name) and \
+                        x.target.id == n.id and x.value is not None:
+                    v = x.value
+                if isinstance(x, ast.NamedExpr) and isinstance(x.target, ast.Name) and \
+                        x.target.id == n.id:
+                    v = x.value
+                if isinstance(x, ast.For) and n.id in {
+                        m.id for m in ast.walk(x.target) if isinstance(m, ast.Name)}:
+                    v = x.iter
+                if v is not None:
+                    out |= _names_expanded(fn, v, depth + 1, seen)
+    return out
+
+
+def _null_return(r: ast.Return) -> bool:
+    v = r.value
+    if v is None or isinstance(v, ast.Constant) and v.value is None:
+        return True
+    return isinstance(v, ast.Call) and call_name(v) == "cast" and any(
+        isinstance(a, ast.Constant) and a.value is None for a in v.args)
+
+
+def conversion_guards(prog: Program, run: Run, R: str, dirs: Tuple[str, ...] = ("phys", "int")
+                      ) -> int:
+    """Every conversion routine of a compu method rejects, on its own, the values it is not
+    applicable to: DtcDop.encode_into_pdu and EnvironmentDataDescription call it without asking
+    is_valid_*_value first, and what DataObjectProperty asks first is the same question.  Shapes
+    accepted (all eight categories use one of them): the identity; an unconditional rejection; a
+    rejection whose condition depends on the value; or converted values returned only under a
+    condition on the value, with the rejection at the end."""
+    names = {"phys": ("convert_physical_to_internal", "EncodeError"),
+             "int": ("convert_internal_to_physical", "DecodeError")}
+    n = 0
+    for c in prog.subclasses("CompuMethod", strict=True):
+        for d in dirs:
+            cn, exc = names[d]
+            f = c.methods.get(cn)
+            if f is None:
+                continue  # validity_vs_conversion reports the missing method
+            n += 1
+            pv = f.params()[1]
+            rets = [r for r in walk_no_nested(f.node) if isinstance(r, ast.Return)]
+            live = [r for r in rets if not _null_return(r)]
+            if live and all(isinstance(r.value, ast.Name) and r.value.id == pv for r in live) and \
+                    not any(isinstance(x, (ast.Assign, ast.AugAssign)) for x in
+                            walk_no_nested(f.node)):
+                run.ok(R, f"{c.name}.{cn}", "identity: nothing to reject", f.loc)
+                continue
+            cfg = CFG(f.node)
+            dep_raise = uncond_raise = False
+            for nd in cfg.nodes:
+                st = nd.stmt
+                if st is None or nd.kind != "stmt":
+                    continue
+                is_raise = isinstance(st, ast.Raise) and exc in ast.unparse(st) or (
+                    isinstance(st, ast.Expr) and isinstance(st.value, ast.Call) and call_name(
+                        st.value) in ("odxraise", "odxassert") and exc in ast.unparse(st.value))
+                if not is_raise:
+                    continue
+                conds = [t for t, _p in cfg.branch_conditions(nd.id)]
+                if isinstance(st, ast.Expr) and call_name(st.value) == "odxassert":
+                    conds = conds + [st.value.args[0]]
+                if any(pv in _names_expanded(f.node, t) for t in conds):
+                    # a type test alone does not decide applicability
+                    if any(pv in _names_expanded(f.node, t) and not (
+                            isinstance(_strip_not(t), ast.Call) and call_name(_strip_not(t)) ==
+                            "isinstance") for t in conds):
+                        dep_raise = True
+                elif all(st.lineno > r.lineno for r in live):
+                    # the rejection at the end (conditions on the description only)
+                    uncond_raise = True
+            guarded_returns = all(
+                any(pv in _names_expanded(f.node, t) for t, _p in cfg.branch_conditions(
+                    cfg.node_of(r))) for r in live)
+            if dep_raise:
+                run.ok(R, f"{c.name}.{cn}", f"rejects with {exc} under a condition on the value",
+                       f.loc)
+            elif uncond_raise and guarded_returns:
+                run.ok(R, f"{c.name}.{cn}", f"returns converted values only under a condition on "
+                       f"the value; {exc} otherwise", f.loc)
+            else:
+                run.violation(R, f"{c.name}.{cn}", "conversion-does-not-reject",
+                              f"{cn} has no {exc} rejection that depends on the value: a value "
+                              "outside the applicable range is converted (extrapolated) when the "
+                              "caller did not ask is_valid first -- DtcDop.encode_into_pdu and "
+                              "EnvironmentDataDescription do not, DataObjectProperty relies on "
+                              "the same test", f.loc)
+    return n
+
+
+def _strip_not(t: ast.AST) -> ast.AST:
+    while isinstance(t, ast.UnaryOp) and isinstance(t.op, ast.Not):
+        t = t.operand
+    return t
+
+
 # ===================================================================== SCALE-LINEAR invertibility
 def invertibility(prog: Program, run: Run, R: str) -> None:
     f = prog.func("ScaleLinearCompuMethod.__post_init__")
@@ -1252,14 +1362,14 @@ def texttable_roles(prog: Program, run: Run, R: str) -> None:
 
 
 # ===================================================================== DOP gates (C03.R4)
-def dop_gates(prog: Program, run: Run, R: str) -> None:
+def dop_gates(prog: Program, run: Run, R: str, sides: Tuple[str, ...] = ("enc", "dec")) -> None:
     d = prog.func("DataObjectProperty.decode_from_pdu")
     cfg = CFG(d.node)
     conv = [x for x in walk_no_nested(d.node) if isinstance(x, ast.Call) and call_name(x) ==
             "convert_internal_to_physical"]
     if not conv:
         raise AnalysisError("DataObjectProperty.decode_from_pdu: conversion call not found")
-    for c in conv:
+    for c in conv if "dec" in sides else []:
         arg = ast.unparse(c.args[0])
         st = _stmt(d.node, c)
         conds = cfg.branch_conditions(cfg.node_of(st))
@@ -1283,7 +1393,7 @@ def dop_gates(prog: Program, run: Run, R: str) -> None:
     for x in walk_no_nested(e.node):
         if isinstance(x, ast.If) and "is_valid_physical_value" in ast.unparse(x.test):
             gate = x
-    for c in conv:
+    for c in conv if "enc" in sides else []:
         st = _stmt(e.node, c)
         good = False
         if gate is not None and norm_test(gate.test) == norm_test(ast.parse(
@@ -1308,7 +1418,9 @@ def dop_gates(prog: Program, run: Run, R: str) -> None:
     for x in walk_no_nested(e.node):
         if isinstance(x, ast.Assign) and any(x.value is c for c in conv):
             iv = ast.unparse(x.targets[0])
-    if enc and iv and ast.unparse(enc[0].args[0]) == iv:
+    if "enc" not in sides:
+        pass
+    elif enc and iv and ast.unparse(enc[0].args[0]) == iv:
         run.ok(R, "DataObjectProperty.encode_into_pdu", "the converted internal value is what "
                "the diag-coded type encodes", _loc(e, enc[0]))
     else:
@@ -1317,7 +1429,9 @@ def dop_gates(prog: Program, run: Run, R: str) -> None:
     dec = [x for x in walk_no_nested(d.node) if isinstance(x, ast.Assign) and isinstance(
         x.value, ast.Call) and call_name(x.value) == "decode_from_pdu" and "diag_coded_type" in
            ast.unparse(x.value.func)]
-    if dec and all(ast.unparse(c.args[0]) == ast.unparse(dec[0].targets[0]) for c in [
+    if "dec" not in sides:
+        pass
+    elif dec and all(ast.unparse(c.args[0]) == ast.unparse(dec[0].targets[0]) for c in [
             x for x in walk_no_nested(d.node) if isinstance(x, ast.Call) and call_name(x) ==
             "convert_internal_to_physical"]):
         run.ok(R, "DataObjectProperty.decode_from_pdu", "the value extracted by the diag-coded "
